@@ -246,11 +246,13 @@ def parser_errors(chk, P):
 
 
 # ---------------------------------------------------------------------------
-def accepted_counts(P, target, eam, upto=13):
-    """row counts 1..upto that survive _init_cutoff and the target factory's extract_cutoffs"""
+def accepted_counts(P, target, eam, upto=13, which="nr"):
+    """values 1..upto of the row count `which` (nr / nrho) that survive _init_cutoff and the target factory's
+    extract_cutoffs, the other count being held at a value every target accepts (52)"""
     ok = []
     for k in range(1, upto + 1):
-        text = "[Tabulation]\ntarget : %s\nnr : %d\nnrho : %d\n[Pair]\nA-B : as.zero\n" % (target, k, k)
+        text = "[Tabulation]\ntarget : %s\nnr : %d\nnrho : %d\n[Pair]\nA-B : as.zero\n" % (
+            target, k if which == "nr" else 52, k if which == "nrho" else 52)
         out = parse(P, text)
         if out[0] != "ok":
             continue
@@ -264,39 +266,52 @@ def accepted_counts(P, target, eam, upto=13):
     return ok
 
 
-def denominators(chk, P):
-    from .c17 import registered_classes, concrete_pots, concrete_eam
-    from .. import excelmodel
+def registered_targets(P):
+    """[(target name, tabulation class)] of the package's own factory table"""
     I0 = W.make_interp(P)
     mod = P.module("atsim.potentials.config._tabulation_factories")
     table = I0.module_global(mod, "TABULATION_FACTORIES")
-    for key, fac in sorted(table.items.values(), key=lambda kv: kv[0].v):
-        target = key.v
-        tc = I0.getattr(fac, "tabulation_class").ci
-        eam = tc.is_subclass_of(P.cls("atsim.potentials.eam_tabulation", "_EAMTabulationAbstractbase"))
-        excel = "Excel" in tc.name
-        fs = "Finnis" in tc.name or "_FS_" in tc.name
-        I = W.make_interp(P, elem=W.EAM_ELEM)
-        if excel:
-            excelmodel.install(I)
-        params = tc.lookup("__init__").params()[1:]
-        args = []
-        for p in params:
-            if p == "potentials":
-                args.append(concrete_pots(I, P) if excel else W.param("potentials"))
-            elif p == "eam_potentials":
-                args.append(concrete_eam(I, P, fs) if excel else W.param("eam_potentials"))
-            elif p in ("dipole_potentials", "quadrupole_potentials"):
-                I.elem_classes[("param", p)] = P.cls(*W.POT)
-                args.append(W.param(p))
-            else:
-                args.append(W.nsym(p))
-        inst = I.instantiate(tc, args, {}, None)
-        fp = BufV("fp", is_file=True)
-        W.run_method(I, inst, "write", [fp])
-        accepted = accepted_counts(P, target, eam, 48 if chk.tier == "thorough" else 13)
+    return [(key.v, I0.getattr(fac, "tabulation_class").ci) for key, fac in sorted(table.items.values(), key=lambda kv: kv[0].v)]
+
+
+def write_target(P, tc):
+    """the tabulation class tc built on symbolic constructor arguments (its own parameter names) and written once
+    -> (interpreter, is it an EAM class)"""
+    from .c17 import concrete_pots, concrete_eam
+    from .. import excelmodel
+    eam = tc.is_subclass_of(P.cls("atsim.potentials.eam_tabulation", "_EAMTabulationAbstractbase"))
+    excel = "Excel" in tc.name
+    fs = "Finnis" in tc.name or "_FS_" in tc.name
+    I = W.make_interp(P, elem=W.EAM_ELEM)
+    if excel:
+        excelmodel.install(I)
+    params = tc.lookup("__init__").params()[1:]
+    args = []
+    for p in params:
+        if p == "potentials":
+            args.append(concrete_pots(I, P) if excel else W.param("potentials"))
+        elif p == "eam_potentials":
+            args.append(concrete_eam(I, P, fs) if excel else W.param("eam_potentials"))
+        elif p in ("dipole_potentials", "quadrupole_potentials"):
+            I.elem_classes[("param", p)] = P.cls(*W.POT)
+            args.append(W.param(p))
+        else:
+            args.append(W.nsym(p))
+    inst = I.instantiate(tc, args, {}, None)
+    fp = BufV("fp", is_file=True)
+    W.run_method(I, inst, "write", [fp])
+    return I, eam
+
+
+def denominators(chk, P):
+    mod = P.module("atsim.potentials.config._tabulation_factories")
+    for target, tc in registered_targets(P):
+        I, eam = write_target(P, tc)
+        upto_ = 48 if chk.tier == "thorough" else 13
+        accepted = accepted_counts(P, target, eam, upto_)
         if not accepted:
             raise AnalysisError("validation of target %s accepts no row count in 1..13" % target)
+        accepted_by = {"nr": accepted, "nrho": accepted_counts(P, target, eam, upto_, which="nrho") if eam else accepted}
         bad = []
         ndiv = 0
         for den, line, label in I.divisions:
@@ -304,7 +319,7 @@ def denominators(chk, P):
                 if not den.depends_on(symname):
                     continue
                 ndiv += 1
-                for k in accepted:
+                for k in accepted_by[symname]:
                     v = ep.substitute(den, {symname: ep.const(k)})
                     if v.is_zero():
                         bad.append("%s line %s: denominator %r vanishes for %s = %d" % (label.split(":")[-1], line, den, symname, k))
